@@ -24,6 +24,7 @@ BOUNDS = {
     "quick": "m,n<=4 and strongly rectangular shapes 2x6, 6x2, 2x7, 3x9, 9x3, 1x8, 8x1 (+ whole-matrix scalings 2^-40, 2^20, 2^30), all ranks, all compositions, values {4,2,1,1/2} (gap >= 2^-1 above threshold), 3 factor kinds; laws on 6x6 pairs of invertible factors per size n<=3; Moore on all n<=3 compositions x sign patterns",
     "thorough": "m,n<=6, laws n<=5",
 }
+THOROUGH_STREAMS = 8
 WALL_BUDGET = {"quick": 300, "thorough": 2400}
 ASSUMPTIONS = ["no borderline singular values: non-zero values are >= 1/4, far above eps*max(m,n)*sigma_max"]
 
